@@ -370,6 +370,12 @@ class Peer:
     def handle_connection(self, connection: 'Incoming') -> Iterator[bool] | None:
         log.debug(lazymsg('peer.fsm.state state={s}', s=self.fsm.name()), self.id())
 
+        # this peer was removed (reload, shutdown) and its task is ending: a connection accepted now
+        # would be left open with nobody to serve or close it
+        if not self._restart:
+            log.debug(lazymsg('peer.connection.rejected connection={c} reason=peer_removed', c=connection.name()), self.id())
+            return connection.notification(6, 5, b'could not accept the connection, the peer is being removed')
+
         # if the other side fails, we go back to idle
         if self.fsm == FSM.ESTABLISHED:
             log.debug(
